@@ -1329,6 +1329,18 @@ def ctor_rules(F, R, variant):
         R.ob("A1.ctor-capacity", label, "capacity-arg", bool(m) and (m.group(2) is None or int(m.group(2)) >= 1),
              "the buffer holds at least max_msg_len bytes (capacity argument = %s)" % (args[1] if len(args) == 3 else args), where=bj["span"])
         n += 1
+        # sibling agreement: the blocking and the async constructor of the same end size their buffer by the same formula
+        other = "async_" if pre == "blocking" else "blocking"
+        try:
+            sj = F.one(krate="flatty_io", def_re=r"^flatty_io::%s::%s::<M, flatty_io::common::io::IoBuffer<P>>::io$" % (mod.replace(pre, other), ty))
+            sb = Body(sj)
+            sc = find_calls(sb, IOBUF + "::<P>::new")
+            sargs = [canon(a) for a in sb.expr_of_call(sc[0][1], 0, sc[0][0])[3]] if len(sc) == 1 else None
+        except Exception:
+            sargs = None
+        R.ob("A4.ctor-siblings", label, "capacity-arg", sargs is not None and len(sargs) == 3 and len(args) == 3 and sargs[1] == args[1],
+             "the blocking and the async %s::io size their buffer by the same formula (%s vs %s)" % (ty, args[1] if len(args) == 3 else args,
+                                                                                              sargs[1] if sargs and len(sargs) == 3 else sargs), where=bj["span"])
     # forwarding chain
     for dre, callee, label in ((r"^flatty_io::common::io::IoBuffer::<P>::new$", BUFFER + "::new", "IoBuffer::new"),
                                (r"^flatty_io::common::io::Buffer::new$", "flatty_containers::bytes::AlignedBytes::new", "Buffer::new")):
